@@ -61,7 +61,9 @@ type Case struct {
 	Bulk bool   `json:"bulk"`
 	Keys []Sel  `json:"keys,omitempty"`
 	Mode string `json:"mode"` // public | private | all
-	// Via: v2 only: "backuper" = KeyBackuper.Export/Import (what acra-keys uses), "rings" = ExportKeyRings/ImportKeyRings
+	// Via: v2: "backuper" = KeyBackuper.Export/Import (what acra-keys uses), "rings" = ExportKeyRings/ImportKeyRings;
+	// v1: "" = KeyBackuper called directly, "acra-backup" = the acra-backup binary built from the tree under test
+	// (--action=export / --action=import as separate processes)
 	Via      string  `json:"via,omitempty"`
 	Target   string  `json:"target"`             // empty | unrelated | conflict
 	Decision string  `json:"decision,omitempty"` // v2 rings import into a conflicting target: abort | skip | overwrite
@@ -97,6 +99,10 @@ func genCase(t *rapid.T, path string, tamper bool) Case {
 		c.Bulk = rapid.IntRange(0, 2).Draw(t, "bulk.migrate") != 0
 	} else {
 		c.Mode = rapid.SampledFrom([]string{"private", "private", "public", "all"}).Draw(t, "mode")
+	}
+	if path == "v1v1" && !tamper && rapid.IntRange(0, 5).Draw(t, "cli") == 0 {
+		// through the real acra-backup binary (always everything, private and public)
+		c.Via, c.Bulk, c.Mode = "acra-backup", true, "all"
 	}
 	if path == "v2v2" {
 		c.Via = rapid.SampledFrom([]string{"backuper", "rings"}).Draw(t, "via")
